@@ -314,6 +314,7 @@ PROPS["C13"] = dict(
         dict(name="regress", pkg="c13", run="TestRegress", timeout=300),
         dict(name="random", pkg="c13", run="TestRandom", checks=dict(quick=960, thorough=8000), shards=16, timeout=dict(quick=400, thorough=2400), shrinktime="90s"),
         dict(name="nodefail", pkg="c13", run="TestNodeFailure", checks=dict(quick=48, thorough=800), shards=16, timeout=dict(quick=400, thorough=2400), shrinktime="120s"),
+        dict(name="transports", pkg="c13", run="TestTransports", shards=7, timeout=dict(quick=300, thorough=900)),
     ],
 )
 
@@ -470,6 +471,7 @@ PROPS["C07"] = dict(
         dict(name="writers", pkg="c07", run="TestTwoWriters", checks=dict(quick=20000, thorough=200000), shards=dict(quick=4, thorough=16), timeout=dict(quick=300, thorough=1800)),
         dict(name="writersenum", pkg="c07", run="TestTwoWritersEnum", shards=dict(quick=2, thorough=16), timeout=dict(quick=300, thorough=1800)),
         dict(name="manyretained", pkg="c07", run="TestManyRetained", checks=dict(quick=64, thorough=640), shards=16, timeout=dict(quick=400, thorough=2400), shrinktime="60s"),
+        dict(name="race", pkg="c07", run="TestSubscribeRacesRetainedPublish", shards=4, timeout=dict(quick=400, thorough=2400)),
     ],
 )
 
